@@ -15,7 +15,10 @@
 
    (2) Reference semantics of nanquantile / nanpercentile along axes (Pattern C):
    the quantile (module Reductions, exact rationals) of every lane with its NaN
-   cells dropped; a lane of NaNs only gives NaN.                              *)
+   cells dropped; a lane of NaNs only gives NaN.  The data may be integer
+   (NaN-free) or float; q is an exact rational fraction, in particular one whose
+   percent value is not an integer (12.5 %, 37.5 %, 62.5 %).  On NaN-free data it
+   is also what percentile(a, 100 q, axis=...) of an n-d array must return.    *)
 EXTENDS Reductions
 
 Scale  == 1024
@@ -48,8 +51,10 @@ NanQuant(shape, cells, qs, scalarq, method, ax, kd) ==
      ELSE [shape |-> (IF scalarq THEN <<>> ELSE <<Len(qs)>>) \o one.shape,
            cells |-> FlattenSeq([j \in DOMAIN qs |-> per(qs[j]).cells]),
            err   |-> FALSE]
-\* case fields: shape, cells, kind, q (fractions), sq, method, ax, kd
+\* case fields: shape, cells, kind, q (fractions), sq, method, ax, kd.  dtype class as for quantile: the
+\* methods that select a data point keep the dtype of the data, the interpolating ones compute in floating point
 NanExpected(c) ==
   LET r == NanQuant(c.shape, c.cells, c.q, c.sq, c.method, c.ax, c.kd)
-  IN [shape |-> r.shape, cells |-> r.cells, err |-> r.err, kind |-> "f", rat |-> TRUE]
+  IN [shape |-> r.shape, cells |-> r.cells, err |-> r.err, rat |-> TRUE,
+      kind |-> IF c.method \in {"lower", "higher", "nearest"} THEN c.kind ELSE "f"]
 =============================================================================
